@@ -1429,9 +1429,11 @@ def oracle_karn(case, impl):
     if any(l.startswith(("vs tmode", "vs chanclose")) for l in case):
         return []
     count, pending, highest, prev_rtt, plen_seen, sacked = {}, [], None, None, {}, set()
+    prev_ms = None
     for ev in tr.events:
         if ev["op"] == "new":
             count, pending, plen_seen, sacked = {}, [], {}, set()
+            prev_ms = None
             highest = (int(ev["opts"].get("our", 101)) - 1) % 65536
             prev_rtt = None
         if ev["op"] == "inject" and "dgram" in ev:
@@ -1466,6 +1468,16 @@ def oracle_karn(case, impl):
                          "text": f"poll at t={ev['t']} ns: the acknowledgements processed newly cover only sequence numbers {sorted(q for q, _ in newly)[:4]}, each transmitted more than once, yet the smoothed RTT moved from {prev_rtt} to {fp.get('rtt')} ns (Karn's rule: a retransmitted segment gives no sample)"})
             return hits
         prev_rtt = fp.get("rtt")
+        # (a size probe that expired in this poll - the proven maximum went down - was popped: its number, the newest
+        # one, was released and whatever is sent under it now is a new segment, also when it has the same size)
+        try:
+            ms = int(fp.get("ss", "").split("max_ss=")[1].split(";")[0])
+        except (IndexError, ValueError):
+            ms = None
+        if ms is not None and prev_ms is not None and ms < prev_ms and highest in count:
+            count[highest] = 0
+            plen_seen.pop(highest, None)
+        prev_ms = ms if ms is not None else prev_ms
         for d in ev["dgrams"]:
             if d["type"] == 0:
                 # (a number that comes back with a different size was released by a probe pop: a new segment)
